@@ -37,6 +37,8 @@ def gen_cases(tier, seed):
         for i in range(r):
             s = stable_hash(seed, "C14", name, i)
             labels = gen.LABEL_REGIMES[i % len(gen.LABEL_REGIMES)]
+            if e.no_cold:       # the model of this entry needs two observed classes from the start
+                labels = ["half", "random", "lastone", "half"][i % 4]
             cases.append({"entry": name, "seed": s, "labels": labels, "cmode": "none",
                           "oracle": ORACLES[(i // 2) % len(ORACLES)],
                           "bs": [1, 2, 3, 4, 99][(i + s) % 5],
@@ -47,7 +49,7 @@ def gen_cases(tier, seed):
 
 
 def required_cells(tier):
-    return ["%s|loop" % n for n, e in POOL.items() if e.loop] + ["%s|cold" % n for n, e in POOL.items() if e.loop]
+    return ["%s|loop" % n for n, e in POOL.items() if e.loop] + ["%s|cold" % n for n, e in POOL.items() if e.loop and not e.no_cold]
 
 
 def run_case(desc):
